@@ -812,21 +812,21 @@ const vcNumOutOfRange = 8 // index of 1E400
 
 var vcConcreteStrings = []string{"é", "日本語", "x'e9'", " x'00' ", " x'00'", "X'53514C697465'", "x'é'"}
 
-// vcChooseValue picks an abstract JSON value.
-func vcChooseValue(name string, tier int) jvVal {
+// vcChooseValue picks an abstract JSON value. mode 0: a small selection per kind (requests with
+// several values); mode 1: the quick variety; mode 2: the thorough variety.
+func vcChooseValue(name string, mode int) jvVal {
 	switch verifChoice(name+".kind", jkKinds) {
 	case jkBool:
 		return jvVal{kind: jkBool, b: verifBool(name + ".b")}
 	case jkInt:
 		return jvVal{kind: jkInt, i: verifI64(name + ".i")}
 	case jkNum:
-		return jvVal{kind: jkNum, numText: vcNumTexts[verifChoice(name+".num", len(vcNumTexts))]}
+		nn := []int{1, len(vcNumTexts), len(vcNumTexts)}[mode]
+		return jvVal{kind: jkNum, numText: vcNumTexts[verifChoice(name+".num", nn)]}
 	case jkString:
-		lens := []int{0, 3, 5}
-		if tier > 0 {
-			lens = []int{0, 1, 2, 3, 4, 5, 6, 7, 9}
-		}
-		k := verifChoice(name+".str", len(lens)+len(vcConcreteStrings))
+		lens := [][]int{{3}, {0, 3, 5}, {0, 1, 2, 3, 4, 5, 6, 7, 9}}[mode]
+		nc := []int{3, len(vcConcreteStrings), len(vcConcreteStrings)}[mode]
+		k := verifChoice(name+".str", len(lens)+nc)
 		if k >= len(lens) {
 			return jvVal{kind: jkString, s: vcConcreteStrings[k-len(lens)]}
 		}
@@ -836,15 +836,16 @@ func vcChooseValue(name string, tier int) jvVal {
 		}
 		return jvVal{kind: jkString, s: string(b)}
 	case jkArray:
-		maxN := 2
-		if tier > 0 {
-			maxN = 3
+		n := 1
+		nk := 1 // mode 0: one integer element (symbolic: inside or outside 0..255)
+		if mode > 0 {
+			n = verifChoice(name+".n", mode+2)
+			nk = jeKinds
 		}
-		n := verifChoice(name+".n", maxN+1)
 		v := jvVal{kind: jkArray, elems: []jvElem{}}
 		for i := 0; i < n; i++ {
 			en := verifName(name+".e", i)
-			e := jvElem{kind: verifChoice(en+".kind", jeKinds)}
+			e := jvElem{kind: verifChoice(en+".kind", nk)}
 			if e.kind == jeInt {
 				e.i = verifI64(en + ".i")
 			}
@@ -1106,7 +1107,7 @@ func vcBindThrough(params []*proto.Parameter, exec bool) []vcBound {
 // VerifC30Param: one JSON value -> makeParameter -> statement runner -> bound value.
 func VerifC30Param() {
 	tier := verifTier()
-	v := vcChooseValue("v", tier)
+	v := vcChooseValue("v", 1+tier)
 	name := ""
 	if verifBool("named") {
 		name = string(verifBytes("name", 2))
@@ -1268,11 +1269,16 @@ func VerifC30Request() {
 	tier := verifTier()
 	var items []vcItem
 	nv := 0
+	shape := verifChoice("shape", 6)
+	mode := 0
+	if tier > 0 && (shape == 0 || shape == 2) {
+		mode = 1
+	}
 	val := func() jvVal {
 		nv++
-		return vcChooseValue(verifName("v", nv), tier)
+		return vcChooseValue(verifName("v", nv), mode)
 	}
-	switch verifChoice("shape", 6) {
+	switch shape {
 	case 0:
 		items = []vcItem{{vals: []jvVal{val()}}}
 	case 1:
@@ -1287,7 +1293,11 @@ func VerifC30Request() {
 		items = nil // ["SELECT 1"] in brackets, no parameters
 	}
 	stmts := []vcStmtDoc{{sql: "INSERT INTO t VALUES(?, ?)", items: items}}
-	plainFirst := verifBool("plainFirst")
+	// quick: the plain statement and the execute path are tied to the shape; thorough: free
+	plainFirst, exec := shape%2 == 1, shape >= 3
+	if tier > 0 {
+		plainFirst, exec = verifBool("plainFirst"), verifBool("exec")
+	}
 	if plainFirst {
 		stmts = append([]vcStmtDoc{{simple: true, sql: "SELECT 1"}}, stmts...)
 	}
@@ -1338,7 +1348,7 @@ func VerifC30Request() {
 		verifReach("no-parameters")
 		return
 	}
-	bound := vcBindThrough(st.Parameters, verifBool("exec"))
+	bound := vcBindThrough(st.Parameters, exec)
 	// positional parameters keep their position; the members of an object may come in any order
 	pos := 0
 	for _, it := range items {
